@@ -139,8 +139,31 @@ def mul(a, b):
 # ---------------------------------------------------------------------------
 # emission grouping
 # ---------------------------------------------------------------------------
+def _erase_ids(t):
+    if not isinstance(t, tuple) or not t:
+        return t
+    if t[0] == "loop":
+        return ("loop", "*", "", _erase_ids(t[3]))
+    return tuple(_erase_ids(c) if isinstance(c, tuple) else c for c in t)
+
+
+def _order_loops(loops):
+    """independent loops are put in a canonical order (nesting order of independent loops is irrelevant)"""
+    remaining = list(loops)
+    placed = []
+    while remaining:
+        ready = [l for l in remaining if not any(o is not l and any(s == o for s in subterms(l[3])) for o in remaining)]
+        if not ready:
+            ready = remaining[:1]
+        ready.sort(key=lambda l: show(_erase_ids(norm_iter(l[3]))))
+        placed.append(ready[0])
+        remaining.remove(ready[0])
+    return tuple(placed)
+
+
 def _rename_loops(loops, guards, term):
     """positional loop names: ('loop', id, kind, it) -> ('loop', pos, '', it')"""
+    loops = _order_loops(loops)
     mapping = {}
     new_loops = []
     for pos, l in enumerate(loops):
@@ -322,8 +345,9 @@ def compare_groups(ctx, rule, where, location, em_items, spec_items, what: str, 
         if sig not in g_em:
             continue
         f_em, f_spec = And(*g_em[sig]), And(*g_spec[sig])
+        dc = dont_care(sig) if callable(dont_care) else dont_care
         try:
-            ok, wit, method = decide_equiv(ctx, f_em, f_spec, side_extra, dont_care, mode)
+            ok, wit, method = decide_equiv(ctx, f_em, f_spec, side_extra, dc, mode)
         except Undecided as u:
             raise P.AnalysisError(f"{rule}: cannot decide {where} [{show_sig(sig)}]: {u}")
         inst = f"{where} {what} [{show_sig(sig)}]"
